@@ -334,8 +334,20 @@ impl<Front: SocketHandler> ConnectionH1<Front> {
                 }
                 Position::Server => {
                     incr!(names::http::FRONTEND_PARSE_ERRORS);
-                    let answers = answers_rc.borrow();
-                    set_default_answer(stream, &mut self.readiness, 400, &answers);
+                    if stream.back.consumed {
+                        // The backend answered before the end of the request and
+                        // part of its response is already written: a 400 would
+                        // land in the middle of that message. The response can
+                        // only be cut short, which closes the connection.
+                        forcefully_terminate_answer(
+                            stream,
+                            &mut self.readiness,
+                            H2Error::InternalError,
+                        );
+                    } else {
+                        let answers = answers_rc.borrow();
+                        set_default_answer(stream, &mut self.readiness, 400, &answers);
+                    }
                 }
             }
             return MuxResult::Continue;
